@@ -51,7 +51,10 @@ TSpec == TInit /\ [][TNext]_tvars
 Cur == Rec[l - 1]
 
 \* Gating: the recorded view is one the properties allow ...
-AnswerAllowed == l > 1 => Allowed(store, result)
+\* (when the root is not among the loaded changes there is no object: the engine logs lww = -2
+\* for "not found" and -3 for the `MissingRoot` error, with an empty view)
+NoObject(v) == v.lww \in {-2, -3} /\ v.hist = {} /\ v.log = <<>>
+AnswerAllowed == l > 1 => IF Root \in store.nodes THEN Allowed(store, result) ELSE NoObject(result)
 
 \* ... is the same as every earlier recorded view of the same commits with the same closure
 \* (C05: other namespaces, other enumeration, `list` instead of `get`) ...
@@ -65,7 +68,7 @@ CleanedHistorySameView ==
     (l > 1 /\ "clean" \in DOMAIN Cur) => ViewRec(Cur.clean) = result
 
 \* Informational (separate configuration): the implementation follows the transcribed algorithm.
-AnswerIsAlg == l > 1 => result = View(store)
+AnswerIsAlg == l > 1 => IF Root \in store.nodes THEN result = View(store) ELSE NoObject(result)
 
 Accepted ==
     IF TLCGet("stats").diameter - 1 = Len(Rec)
